@@ -15,7 +15,22 @@ func main() {
 	worker := flag.Bool("worker", false, "run as a worker subprocess")
 	dl := flag.Int64("deadline", 0, "unix deadline")
 	replay := flag.String("replay", "", "replay file")
+	probe := flag.Bool("probe", false, "development aid: acheck -probe <world> <query> [variables json]")
 	flag.Parse()
+	if *probe {
+		vars := ""
+		if flag.NArg() > 2 {
+			vars = flag.Arg(2)
+		}
+		cfg := a.DefaultConfig
+		if os.Getenv("PROBE_CACHED") != "" {
+			cfg.Planner = "cached"
+		}
+		if os.Getenv("PROBE_HINT") != "" {
+			cfg.Hint = true
+		}
+		os.Exit(a.Probe(flag.Arg(0), flag.Arg(1), vars, cfg))
+	}
 	if flag.NArg() < 2 {
 		fmt.Println("usage: acheck <property> <quick|thorough>")
 		os.Exit(2)
